@@ -576,6 +576,8 @@ class UnitDatabase(Singleton):
         )
 
         self.categories_to_quantity_types[category] = info
+        # Verdicts memoised for this category name (also while it was unknown) are stale now.
+        self._category_unit_valid.clear()
         return info
 
     def IsValidCategory(self, category: str) -> bool:
